@@ -76,7 +76,7 @@ fn main() {
     // argv length per edge count
     let len_for = |edges: usize| -> usize {
         match tier {
-            Tier::Quick => if edges <= 2 { 4 } else { 3 },
+            Tier::Quick => if edges <= 2 { 4 } else { 2 },
             Tier::Thorough => if edges <= 3 { 4 } else { 2 },
         }
     };
